@@ -13,6 +13,8 @@ namespace Gen.Py
 inductive PyExc where
   | valueError | dataOverflow | indexError | keyError | typeError | attributeError | assertionError
   | unicodeError | lookupError | zeroDivisionError
+  | stopIteration    -- `next()` on an exhausted iterator
+  | fuelExhausted    -- NOT a Python exception: a translated `while` ran out of its declared fuel (Gen.Py.whileM)
   deriving DecidableEq, Repr, Inhabited
 
 deriving instance DecidableEq for Except
